@@ -148,6 +148,8 @@ UnclaimedNotes == { "org-not-first",       \* "@org works only on the first inst
                     "bytes-override",      \* @bytes cannot be expressed in ASM text
                     "overwrite-unplaced",  \* | after an instruction whose skool address is unknown
                     "before-and-after",    \* > and + on one directive contradict each other
+                    "data-on-unplaced",    \* @defb/@defs/@defw without address default to "the address of the next
+                                           \* instruction", which a line without address does not have (skool2asm: TypeError)
                     "bytes-length",        \* @bytes is for "an alternative set of opcodes" of the instruction: same length
                     "unlabelled-moved-ref" } \* operand = address of an unlabelled instruction that moved:
                                            \* skool2asm keeps the number and warns "No label for address"
@@ -175,8 +177,9 @@ Item(a, tok, sa, va, src, lab, bv, pd, keep, ov) ==
 ItemSize(it) == IF it.bv # <<>> THEN Len(it.bv) ELSE Size(it.tok)
 
 \* ds: directives that each carry an instruction, placed one after another from address a.
-\* off = skool address - placed address of the current instruction (-1000000: skool address unknown);
-\* an overwriting (|) instruction removes the skool addresses it covers.
+\* off = skool address - placed address of the current instruction; known: the skool address of this place is
+\* known (the current instruction has one and every instruction since overwrote); an overwriting (|)
+\* instruction removes the skool addresses it covers.
 RECURSIVE Chain(_, _, _, _, _, _)
 Chain(ds, a, off, rem, src, known) ==
   IF ds = <<>> THEN [items |-> <<>>, a |-> a, rem |-> rem, bad |-> FALSE]
@@ -242,6 +245,7 @@ InsLine(s, line) ==
             \cup (IF s.pbytes # <<>> /\ s.pbytes # Bytes(cur, a1, cur.t) THEN {"bytes-override"} ELSE {})
             \cup (IF \E d \in Range(D) : d.pre = 1 /\ d.app = 1 THEN {"before-and-after"} ELSE {})
             \cup (IF s.pdata # <<>> /\ pre.items # <<>> THEN {"data-with-insert"} ELSE {})
+            \cup (IF s.pdata # <<>> /\ s.pdata[1].addr = -1 /\ sa = -1 THEN {"data-on-unplaced"} ELSE {})
             \cup (IF s.pbytes # <<>> /\ Len(s.pbytes) # Size(cur) THEN {"bytes-length"} ELSE {})
             \cup (IF laterNoIns # <<>> \/ \E d \in Range(D) : d.pre = 1 /\ d.has = 0 /\ d.lab # ""
                   THEN {"label-on-comment-directive"} ELSE {})
@@ -330,7 +334,7 @@ Definite(s) == FinalNotes(s) = {}
 \* an address was left out.  (What SkoolKit does outside this class is probed by c04.py separately.)
 Stationary(s) == /\ \A i \in 1..Len(s.out) : s.out[i].sa # -1 /\ s.out[i].a = s.out[i].sa
                  /\ s.dropped = 0
-                 /\ s.notes \cap {"directive-on-removed", "overwrite-unplaced", "no-org"} = {}
+                 /\ s.notes \cap {"directive-on-removed", "overwrite-unplaced", "no-org", "data-on-unplaced"} = {}
 
 -----------------------------------------------------------------------------
 (* The writer: a state machine that produces files                           *)
